@@ -5,6 +5,8 @@ package util
 // Contracts for the verification machinery in /verif (comment-only; see /verif/DESIGN.md).
 
 //@ func LdRead
+//@   call[Reader.Peek#0] assert probes_for_a_single_byte [C02]: arg1 == 1
+//@   call[errors.New#0] assert refuses_only_a_section_above_the_limit [C09]: l > MaxAllowedSectionSize
 //@   modifies pos(r)
 //@   alloc[0] bounded_by MaxAllowedSectionSize
 //@   ensures eof_clean [C02]: err == io.EOF ==> pos(r) == old(pos(r))
